@@ -144,6 +144,12 @@ class RepeatedRawMetaItemWrapper(
         item = super().pop(-1)
         return item.key, item
 
+    def update(self, other=(), /, **kwds):  # type: ignore[no-untyped-def]
+        # A mapping is read through keys(): iterating one of these wrappers yields items (their sequence side).
+        if isinstance(other, Mapping):
+            other = [(key, other[key]) for key in other.keys()]
+        super().update(other, **kwds)
+
     def keys(self) -> RepeatedRawMetaKeysView:
         return RepeatedRawMetaKeysView(self)
 
@@ -295,6 +301,12 @@ class RepeatedMetaItemWrapper(
         if not len(self):
             raise KeyError('popitem(): no meta item')
         return self._pop_value(-1)
+
+    def update(self, other=(), /, **kwds):  # type: ignore[no-untyped-def]
+        # A mapping is read through keys(): iterating one of these wrappers yields items (their sequence side).
+        if isinstance(other, Mapping):
+            other = [(key, other[key]) for key in other.keys()]
+        super().update(other, **kwds)
 
     def keys(self) -> RepeatedMetaKeysView:
         return RepeatedMetaKeysView(self)
